@@ -58,6 +58,12 @@ ReprAt(c, m, li, prev, cds, chs) ==
     \o Flat([j \in 1..Len(cds) |-> BE(cds[j], 2)])
     \o Flat(chs)
 
+\* the standard representation of an ordinary level-0 cell k (C01): descriptors, padded data, children's depths, children's hashes
+Repr0(heap, info, k) ==
+    LET c == heap[k] IN
+    ReprAt(c, 0, 0, <<>>, [j \in 1..Len(c.r) |-> DepthOf(heap[c.r[j]], info[c.r[j]], 0)],
+                          [j \in 1..Len(c.r) |-> HashOf(heap[c.r[j]], info[c.r[j]], 0)])
+
 Compute(c, heap, info) ==
     LET m    == MaskOf(c, info)
         sig  == SelectSeq(<<0, 1, 2, 3>>, LAMBDA l : l <= Lvl(m) /\ IsSig(m, l))
